@@ -25,6 +25,7 @@ import (
 	"verif/memnet"
 	"verif/peer"
 	"verif/refcodec"
+	"verif/udpsrv"
 	"verif/wire"
 )
 
@@ -383,8 +384,8 @@ func TestCheck(t *testing.T) {
 		return f
 	})
 	r.Main(evid.Meta{
-		Rule:        "event lists over {message received, pong for the current or a superseded ping, housekeeping tick} with virtual gaps around the period (1 ms, p/3, p/2, p-1, p+1, 1.5p, 2p+1, 5p+3; never exactly on it) against the bare inactivity.Monitor / KeepAlive and against datagram and stream connections configured with WithInactivityMonitor / WithKeepAlive (maxRetries 0-4) in a synctest bubble, the scripted peer answering pings on the wire; oracle: inactivity monitor closes at a tick iff that tick is later than last receipt + period; keep-alive may close only at an inactive tick and only if at least maxRetries pings were put on the wire unanswered since the last received message/pong; a received message never closes; a totally silent peer with ticks every <= period is closed within (maxRetries+2) periods. Non-trivial = traffic or a pong falls between two ticks of one period, or a pong for a superseded ping; distinct by scenario. servers: a tcp / dtls server on an in-memory listener configured once with WithInactivityMonitor or WithKeepAlive (maxRetries 1-3), 2-4 scripted peers that stay silent, answer every ping, or send a request every half period, ticks every half period; oracle per connection: a silent peer is closed (keep-alive: not before maxRetries pings went out on its own wire; inactivity: not before one period), a talking or ping-answering peer is never closed - whatever the other connections of the server do; non-trivial = peers of at least two kinds",
+		Rule:        "event lists over {message received, pong for the current or a superseded ping, housekeeping tick} with virtual gaps around the period (1 ms, p/3, p/2, p-1, p+1, 1.5p, 2p+1, 5p+3; never exactly on it) against the bare inactivity.Monitor / KeepAlive and against datagram and stream connections configured with WithInactivityMonitor / WithKeepAlive (maxRetries 0-4) in a synctest bubble, the scripted peer answering pings on the wire; oracle: inactivity monitor closes at a tick iff that tick is later than last receipt + period; keep-alive may close only at an inactive tick and only if at least maxRetries pings were put on the wire unanswered since the last received message/pong; a received message never closes; a totally silent peer with ticks every <= period is closed within (maxRetries+2) periods. Non-trivial = traffic or a pong falls between two ticks of one period, or a pong for a superseded ping; distinct by scenario. servers: a tcp / dtls server on an in-memory listener configured once with WithInactivityMonitor or WithKeepAlive (maxRetries 1-3), 2-4 scripted peers that stay silent, answer every ping, or send a request every half period, ticks every half period; oracle per connection: a silent peer is closed (keep-alive: not before maxRetries pings went out on its own wire; inactivity: not before one period), a talking or ping-answering peer is never closed - whatever the other connections of the server do; non-trivial = peers of at least two kinds. " + udpsrv.Rule,
 		Assumptions: []string{"the literal off-by-one of 'more than the configured number of pings' is not asserted: closing after maxRetries unanswered pings plus one further inactive tick is accepted (DESIGN.md 3/C18)", "a pong for a superseded ping counts as a received message"},
 		Floor:       500,
-	}, eng, serversEngine(t, r))
+	}, eng, serversEngine(t, r), udpsrv.Engine(r, []string{"keepalive"}, 6, 150))
 }
